@@ -7,10 +7,12 @@ package verifrt
 
 import (
 	"encoding/json"
+	"runtime"
+	"strings"
 
+	"fmt"
 	toml "github.com/pelletier/go-toml/v2"
 	openrgb "github.com/realbucksavage/openrgb-go"
-	"fmt"
 	"math"
 	"os"
 	"strconv"
@@ -85,17 +87,17 @@ func N(base string, idx ...int) string {
 	return base
 }
 
-func U8(name string) uint8     { return uint8(bits(name)) }
-func U16(name string) uint16   { return uint16(bits(name)) }
-func U32(name string) uint32   { return uint32(bits(name)) }
-func U64(name string) uint64   { return bits(name) }
-func I8(name string) int8      { return int8(bits(name)) }
-func I16(name string) int16    { return int16(bits(name)) }
-func I32(name string) int32    { return int32(bits(name)) }
-func I64(name string) int64    { return int64(bits(name)) }
-func Int(name string) int      { return int(int64(bits(name))) }
-func Bool(name string) bool    { return bits(name) != 0 }
-func F64(name string) float64  { return math.Float64frombits(bits(name)) }
+func U8(name string) uint8    { return uint8(bits(name)) }
+func U16(name string) uint16  { return uint16(bits(name)) }
+func U32(name string) uint32  { return uint32(bits(name)) }
+func U64(name string) uint64  { return bits(name) }
+func I8(name string) int8     { return int8(bits(name)) }
+func I16(name string) int16   { return int16(bits(name)) }
+func I32(name string) int32   { return int32(bits(name)) }
+func I64(name string) int64   { return int64(bits(name)) }
+func Int(name string) int     { return int(int64(bits(name))) }
+func Bool(name string) bool   { return bits(name) != 0 }
+func F64(name string) float64 { return math.Float64frombits(bits(name)) }
 
 // Str returns an arbitrary string of at most maxLen bytes.
 func Str(name string, maxLen int) string {
@@ -199,7 +201,19 @@ func RunConcurrent(k int, monitor func()) {
 func AnyEnabled() bool { return true }
 
 // Live: a goroutine running a function whose name contains substr has not terminated (symbolic only).
-func Live(substr string) bool { return false }
+func Live(substr string) bool {
+	// natively: some goroutine's stack still shows a function whose name contains substr (polled for a while,
+	// a goroutine that is about to return needs a moment)
+	for i := 0; i < 20; i++ {
+		buf := make([]byte, 1<<20)
+		n := runtime.Stack(buf, true)
+		if !strings.Contains(string(buf[:n]), substr) {
+			return false
+		}
+		time.Sleep(10 * time.Millisecond)
+	}
+	return true
+}
 
 // BlockedIn: a goroutine is stopped inside a function whose name contains substr and cannot proceed.
 func BlockedIn(substr string) bool { return false }
